@@ -96,7 +96,10 @@ def gen_case(rng):
                 prog.append(("EAddArray", e, c, w, SR, [("m1", marker_rle(rng, N)), ("m2", marker_rle(rng, N))]))
         prog.append(("SAddElement", s, pos, e))
     for c in chans:
-        prog += [("SSetAmp", s, c, ampl[c]), ("SSetOff", s, c, off[c])]
+        if rng.random() < 0.25:
+            prog.append(("SSetRange", s, c, ampl[c], off[c]))        # the deprecated setChannelVoltageRange
+        else:
+            prog += [("SSetAmp", s, c, ampl[c]), ("SSetOff", s, c, off[c])]
     seq_bad = False
     seq_edge = klass == "sequencing"       # otherwise every sequencing value is inside its range
     for pos in range(1, npos + 1):
